@@ -137,14 +137,14 @@ def job_eacces(res, rng, sc, w, job):
         bad, good = top[0], top[1]
         os.chmod(bad.abs, 0)
         try:
-            for q in ("path from t/%s, t/%s into list" % (bad.rel, good.rel), "path from t/%s, t/%s into list" % (good.rel, bad.rel),
-                      "path from t/%s dfs into list" % bad.rel):
-                r = runner.run([q.replace("t/%s" % bad.rel, "'t/%s'" % bad.rel).replace("t/%s" % good.rel, "'t/%s'" % good.rel)], cwd=w, home=home, uid=NOBODY)
+            for q, with_good in (("path from 't/%s', 't/%s' into list" % (bad.rel, good.rel), True), ("path from 't/%s', 't/%s' into list" % (good.rel, bad.rel), True),
+                                 ("path from 't/%s' dfs into list" % bad.rel, False)):
+                r = runner.run([q], cwd=w, home=home, uid=NOBODY)
                 res.ev()
                 ctx = {"query": q, "unlistable_root": bad.rel, "result": r.brief()}
                 if not judge_basic(res, r, q, ctx):
                     continue
-                want = sorted("t/" + e.rel for e in snap if inside(e.rel, good.rel)) if good.rel in q else []
+                want = sorted("t/" + e.rel for e in snap if inside(e.rel, good.rel)) if with_good else []
                 if r.rc != 1 or ("t/" + bad.rel) not in r.err.decode("utf-8", "replace") or sorted(r.rows()) != want:
                     res.viol("unlistable search root t/%s: status %s, stderr %r, %d rows (expected status 1, the root named, %d rows of the other root)" % (
                         bad.rel, r.rc, r.err[:120], len(r.rows()), len(want)), ctx)
@@ -479,9 +479,9 @@ def run_job(job):
 def main(chk):
     quick = chk.tier == "quick"
     jobs = []
-    for i in range(12 if quick else 200):
+    for i in range(64 if quick else 300):
         jobs.append({"id": "ea%d" % i, "kind": "eacces", "seed": job_seed(chk.seed, "C17", "e%d" % i)})
-    for i in range(16 if quick else 240):
+    for i in range(48 if quick else 300):
         jobs.append({"id": "sf%d" % i, "kind": "sysfault", "seed": job_seed(chk.seed, "C17", "s%d" % i), "max_faults": 40 if quick else 0})
     for pk in ("streamed", "ordered", "aggregate", "grouped"):
         for fmt in FORMATS:
